@@ -1,29 +1,27 @@
-use crate::kinds::*;
 use crate::sym::*;
 use rscel::CelValue;
-use rscel::serde_json::Value;
 
-fn mk() -> (Short, String) {
-    let a = KS::sym();
-    let s = match a { V::S(s) => s, _ => unreachable!() };
-    (s, unsafe { String::from_utf8_unchecked(s.bytes()) })
-}
-fn cmp(g: &[u8], s: Short) {
-    assert!(g.len() == s.len as usize, "len");
-    let mut i = 0usize;
-    while i < 2 { if i < g.len() { assert!(g[i] == s.b[i], "bytes"); } i += 1; }
-}
-harness!(probe_a, 6, { let (s, t) = mk(); let c = t.clone(); cmp(c.as_bytes(), s); core::mem::forget((t, c)); });
-harness!(probe_b, 6, { let (s, t) = mk(); let v = Value::String(t); let c = if let Value::String(x) = &v { x.clone() } else { String::new() }; cmp(c.as_bytes(), s); core::mem::forget((v, c)); });
-harness!(probe_c, 6, { let (s, t) = mk(); let v = Value::String(t); let r = CelValue::from(&v); if let CelValue::String(g) = &r { cmp(g.as_bytes(), s); } core::mem::forget((v, r)); });
-harness!(probe_d, 6, { let (s, t) = mk(); cmp(t.as_bytes(), s); core::mem::forget(t); });
-fn mk2() -> (Short, String) {
-    let a = KS::sym();
-    let s = match a { V::S(s) => s, _ => unreachable!() };
-    let mut v = vec![s.b[0], s.b[1], s.b[2]];
-    v.truncate(s.len as usize);
-    (s, unsafe { String::from_utf8_unchecked(v) })
-}
-harness!(probe_e, 6, { let (s, t) = mk2(); let c = t.clone(); cmp(c.as_bytes(), s); core::mem::forget((t, c)); });
-harness!(probe_f, 6, { let (s, t) = mk2(); let v = Value::String(t); let r = CelValue::from(&v); if let CelValue::String(g) = &r { cmp(g.as_bytes(), s); } core::mem::forget((v, r)); });
-harness!(probe_g, 8, { let (s, t) = mk2(); let (s2, t2) = mk2(); let r = CelValue::String(t) + CelValue::String(t2); if let CelValue::String(g) = &r { assert!(g.len() == (s.len + s2.len) as usize); if s.len == 1 && s2.len == 2 { assert!(g.as_bytes()[0] == s.b[0] && g.as_bytes()[2] == s2.b[1]); } } core::mem::forget(r); });
+harness!(probe_idx1, 4, {
+    let x: i64 = any(); let i: i64 = any();
+    let r = CelValue::List(vec![CelValue::Int(x)]).index(CelValue::Int(i));
+    if i == 0 || i == -1 { assert!(matches!(r, CelValue::Int(y) if y == x), "elem"); } else { assert!(r.is_err(), "oob"); }
+    core::mem::forget(r);
+});
+harness!(probe_idx0, 4, {
+    let i: i64 = any();
+    let r = CelValue::List(vec![]).index(CelValue::Int(i));
+    assert!(r.is_err(), "empty");
+    core::mem::forget(r);
+});
+harness!(probe_in1, 4, {
+    let x: i64 = any(); let y: i64 = any();
+    let r = CelValue::Int(y).in_(CelValue::List(vec![CelValue::Int(x)]));
+    assert!(matches!(r, CelValue::Bool(b) if b == (x == y)), "in");
+    core::mem::forget(r);
+});
+harness!(probe_idxu1, 4, {
+    let x: i64 = any(); let i: u64 = any();
+    let r = CelValue::List(vec![CelValue::Int(x)]).index(CelValue::UInt(i));
+    if i == 0 { assert!(matches!(r, CelValue::Int(y) if y == x), "elem"); } else { assert!(r.is_err(), "oob"); }
+    core::mem::forget(r);
+});
